@@ -1084,9 +1084,11 @@ fn c14(tier: &str) -> PropDef {
             Arm { backend: Backend::Sim, cache: CacheMode::Off, nosparse: false },
             Arm { backend: Backend::Sim, cache: CacheMode::Default, nosparse: false },
             Arm { backend: Backend::Sim, cache: CacheMode::Tiny, nosparse: false },
-            Arm { backend: Backend::Memory, cache: CacheMode::Off, nosparse: false },
-            Arm { backend: Backend::Memory, cache: CacheMode::Tiny, nosparse: false },
         ];
+        if with_disk || idx % 4 == 0 {
+            arms.push(Arm { backend: Backend::Memory, cache: CacheMode::Off, nosparse: false });
+            arms.push(Arm { backend: Backend::Memory, cache: CacheMode::Tiny, nosparse: false });
+        }
         if with_disk {
             arms.push(Arm { backend: Backend::DiskFs, cache: CacheMode::Off, nosparse: false });
             arms.push(Arm { backend: Backend::DiskFs, cache: CacheMode::Default, nosparse: false });
@@ -1099,7 +1101,7 @@ fn c14(tier: &str) -> PropDef {
     let families = vec![
         Family {
             name: "sim-memory-cache",
-            count: if quick { 500 } else { 60_000 },
+            count: if quick { 2000 } else { 80_000 },
             make: Box::new(move |seed, idx| mk(seed, idx, false)),
         },
         Family {
